@@ -596,9 +596,12 @@ def run(ctx):
     src = Source("str@1", MASTERS[0][:2])
     rs = build_reads(1, 2)
     samples = []
-    for r in (rs[40], rs[300], rs[-30], rs[-3]):
-        exp, alt, skel = expect(src, r)
-        samples.append({"source": src.name, "content": src.content.hex(), "read": show(r), "expected": showv(exp), "skeleton": skel})
+    for wanted in ("inside:unaligned", "cross-end", "inside:e=default", "empty-outside", "cross-start"):
+        for r in reversed(rs):
+            exp, alt, skel = expect(src, r)
+            if skel == wanted:
+                samples.append({"source": src.name, "content": src.content.hex(), "read": show(r), "expected": showv(exp), "skeleton": skel})
+                break
     return {
         "evaluations": stats["evaluations"],
         "distinct_nontrivial": stats["nontrivial"],
